@@ -607,6 +607,32 @@ func vbMain(mode string, shard, nshards int, tier string, replay string) {
 			}
 		}
 		rec3(nil)
+		// request bodies as text for the HTTP handler: base64 digits, padding and the white space that
+		// Go's decoder skips, so that the body's length and the decoded length part company
+		httpEPs := map[string]bool{}
+		for _, ep := range eps {
+			if strings.HasPrefix(ep.name, "NewFrugalHandlerFunc/") {
+				httpEPs[ep.name] = true
+			}
+		}
+		L4 := 8
+		if tier == "thorough" {
+			L4 = 9
+		}
+		var rec4 func(p []byte)
+		rec4 = func(p []byte) {
+			idx++
+			if idx%nshards == shard {
+				vbRunInput(res, eps, p, httpEPs)
+			}
+			if len(p) == L4 {
+				return
+			}
+			for _, c := range []byte("AQ=\n\r") {
+				rec4(append(append([]byte{}, p...), c))
+			}
+		}
+		rec4(nil)
 	case "probes":
 		// explicit representatives of the declared-size range that the enumeration skips
 		sizes := []uint32{1<<20 + 1, 1 << 24}
